@@ -33,6 +33,10 @@ REAL_POOL = [  # (country, option overrides): three-round runs of different char
     ("NZL", {"scenario": "seaweed"}), ("USA", {"shutoff": "continued_after_10_percent_fed"}),
     ("ARG", {"cull": "dont_eat_culled"}), ("IDN", {"meat_strategy": "feed_only_ruminants"}),
     ("USA", {}, 0), ("IND", {"shutoff": "continued"}, 0),   # threshold overridden to the legal boundary 0
+    # small countries where the final round really gets a top-up (increase > 0 in some month)
+    ("CRI", {"shutoff": "continued"}), ("KGZ", {"crop_disruption": "zero", "meat_strategy": "baseline_breeding"}),
+    ("MDA", {"crop_disruption": "zero", "meat_strategy": "baseline_breeding"}),
+    ("LVA", {"crop_disruption": "zero", "meat_strategy": "baseline_breeding"}),
     # no storage between years (culled meat must be eaten in the month of slaughter): no shipped preset uses it
     ("ARG", {"shutoff": "continued", "ratio_stocks_untouched": "no_stored_between_years"}),
     ("ARG", {"shutoff": "continued", "ratio_stocks_untouched": "baseline_no_stored_between_years"}),
@@ -473,6 +477,9 @@ def term_for(case, r):
         tol = TIGHT if tight else LOOSE
         args = " ".join(fql(case[x]) for x in ("b", "f", "inc", "maxb", "maxf", "avail"))
         return f"check_bump {tol} {fq(scale)} {args} {fql(unhex(r['b']))} {fql(unhex(r['f']))}"
+    if k == "increase":
+        return (f"check_increase {LOOSE} {TIGHT} {fq(case['population'])} {fq(case['days'])} {fq(case['const'])} "
+                f"{fql(case['meat1'])} {fql(case['meat3'])} {fql(unhex(r['inc']))}")
     if k == "minneeds":
         if raised:
             obs = "ORaised"
@@ -490,6 +497,7 @@ MISMATCH = {"fill": {1: "values differ"},
                        3: "model skips round 2, implementation re-times", 4: "model rejects, implementation returns",
                        5: "model returns, implementation raises"},
             "bump": {1: "biofuel differs", 2: "feed differs"},
+            "increase": {1: "requested increase differs from the meat gain of the final round", 3: "lengths differ"},
             "minneeds": {1: "values differ", 2: "dictionary keys/order differ", 3: "number of keys differs",
                          4: "model accepts, implementation raises", 5: "model rejects, implementation returns"}}
 
@@ -540,6 +548,8 @@ def branch_tags(case, r):
                 t.append("bump:b=f=0,equal_potentials(5ea9ff8 witness)")
             if b > mb or f > mf or inc < 0:
                 t.append("bump:start_above_demand_or_negative_increase")
+    elif k == "increase":
+        t.append("increase:some_month_positive" if any(v > 0 for v in unhex(r["inc"])) else "increase:all_zero")
     elif k == "minneeds":
         t.append("min:pf>T" if case["pf"] > case["T"] else "min:pf<=T")
         if case["T"] == 0:
@@ -643,7 +653,8 @@ def real_runs(ctx):
         # USA (plain), NZL (the special-cased constant), MNG twice (shipped nuclear-winter options; ruminants only +
         # short shut-off): the two MNG runs are ones where the re-timing moves meat
         nostore = [p for p in pool if p[0] == "ARG" and "stored_between_years" in p[1].get("ratio_stocks_untouched", "")]
-        fixed = [pool[0], pool[5], pool[8], pool[9]] + nostore   # + ARG without storage between years (both spellings)
+        topup = [p for p in pool if p[0] == "CRI"]
+        fixed = [pool[0], pool[5], pool[8], pool[9]] + nostore + topup   # + ARG without storage (both spellings), CRI
         rest = [p for p in pool if p not in fixed and len(p) == 2]
         ctx.rng.shuffle(rest)
         pool = fixed + rest[:1]
@@ -668,6 +679,14 @@ def real_cases(real):
             c = {k: unhex(rec[k]) for k in ("b", "f", "inc", "maxb", "maxf", "avail")}
             c.update({"kind": "bump", "mode": "real", "real": tag})
             out.append((c, {"b": rec["nb"], "f": rec["nf"]}))
+            th = r.get("third")
+            if th and th.get("had_round1"):
+                # the `increase` argument of the real call against the model of the round-3 top-up
+                out.append(({"kind": "increase", "mode": "real", "real": tag, "country": r["country"],
+                             "option": r.get("option", {}), "threshold": r.get("threshold"),
+                             "population": unhex(th["population"]), "days": unhex(th["days"]),
+                             "const": 100.0 if th.get("country") == "NZL" else 20.0,
+                             "meat1": unhex(th["meat1"]), "meat3": unhex(th["meat3"])}, {"inc": rec["inc"]}))
     return out
 
 
@@ -707,6 +726,18 @@ def correspondence(ctx):
     for code, (case, r) in zip(codes, meta):
         if code != 0:
             nbad += 1
+            if case["kind"] == "increase":
+                ctx.tie_ok = False
+                ctx.broken.append("real top-up increase vs Model/MeatDairy.increase_of")
+                ctx.violation("C18:topup-increase-differs-from-meat-gain@compute_parameters_third_round",
+                              f"{case['real']}: the `increase` handed to increase_biofuels_then_feed is not "
+                              "max0((meat3 - meat1)/2 * k - const) / k in billion kcals per month "
+                              f"(k = 1e9/days/population, population {case['population']:.6g}; max handed "
+                              f"{max(unhex(r['inc'])):.6g})",
+                              {"kind": "counterexample", "case": {"country": case["country"], "option": case["option"],
+                                                                  "threshold": case.get("threshold")},
+                               "observed_increase": r["inc"]})
+                continue
             if nbad <= 4:
                 what = MISMATCH[case["kind"]].get(code, str(code))
                 ctx.tie_ok = False
@@ -749,6 +780,8 @@ def nontrivial(case, r):
         return any(v < 0 for v in case["arr"]) and any(v > 0 for v in case["arr"])
     if k == "redist":
         return r["out"] is not None and any(x < y for x, y in zip(case["r2"], case["r1"]))
+    if k == "increase":
+        return any(v > 0 for v in unhex(r["inc"]))
     if k == "bump":
         return unhex(r["b"]) != case["b"] or unhex(r["f"]) != case["f"]
     if k == "minneeds":
